@@ -66,9 +66,10 @@ class Table:
 
 
 def fmt_real(rng, v=None):
-    """a decimal with <= 6 significant digits, in assorted spellings; returns (text, value as (mant, exp10))"""
-    mant = rng.choice([0, 1, 5, 10, 25, 99, 100, 125, 999999, rng.randrange(0, 1000), rng.randrange(0, 1000000)])
-    exp = rng.choice([0, 0, -1, -2, -3, 1, 2, -6, 6, rng.randrange(-12, 13)])
+    """a decimal with <= 15 significant digits (DBL_DIG: distinct such decimals are distinct doubles, in the same order), exponent within the normal range; returns (mant, exp10)"""
+    mant = rng.choice([0, 1, 5, 10, 25, 99, 100, 125, 999999, rng.randrange(0, 1000), rng.randrange(0, 1000000),
+                       rng.randrange(0, 10 ** 15), 10 ** 15 - 1, 123456789012345, rng.randrange(10 ** 14, 10 ** 15)])
+    exp = rng.choice([0, 0, -1, -2, -3, 1, 2, -6, 6, rng.randrange(-12, 13), rng.randrange(-12, 13), rng.randrange(-290, 290), -15, -20])
     return mant, exp
 
 
@@ -257,17 +258,23 @@ class Gen:
                 a, b = lo[0] * 10 ** (lo[1] - e), hi[0] * 10 ** (hi[1] - e)
                 m = rng.choice([a, b, (a + b) // 2, rng.randrange(a, b + 1)])
                 d = (m, e)
-                if len(str(abs(m)).rstrip("0") or "0") > 6 or rng.random() < 0.5:
+                if len(str(abs(m)).rstrip("0") or "0") > 15 or rng.random() < 0.5:
+                    k = rng.randrange(1, 13)             # just inside a bound, up to 15 significant digits
                     d = rng.choice([(lo[0] * 10 + 1, lo[1] - 1), (hi[0] * 10 - 1, hi[1] - 1), lo, hi,
-                                    (lo[0] * 100 + rng.randrange(1, 100), lo[1] - 2)])
+                                    (lo[0] * 100 + rng.randrange(1, 100), lo[1] - 2),
+                                    (lo[0] * 10 ** k + 1, lo[1] - k), (hi[0] * 10 ** k - 1, hi[1] - k)])
             elif lo is not None:
-                d = rng.choice([lo, (lo[0] * 10 + 1, lo[1] - 1), (abs(lo[0]) + rng.randrange(1, 1000), max(lo[1], 0))])
+                k = rng.randrange(1, 13)
+                d = rng.choice([lo, (lo[0] * 10 + 1, lo[1] - 1), (abs(lo[0]) + rng.randrange(1, 1000), max(lo[1], 0)), (lo[0] * 10 ** k + 1, lo[1] - k),
+                                (abs(lo[0]) + rng.randrange(1, 10 ** 12), max(lo[1], 0) + rng.choice([0, 0, 3, 100, 280]))])
             elif hi is not None:
-                d = rng.choice([hi, (hi[0] * 10 - 1, hi[1] - 1), (-abs(hi[0]) - rng.randrange(1, 1000), max(hi[1], 0))])
+                k = rng.randrange(1, 13)
+                d = rng.choice([hi, (hi[0] * 10 - 1, hi[1] - 1), (-abs(hi[0]) - rng.randrange(1, 1000), max(hi[1], 0)), (hi[0] * 10 ** k - 1, hi[1] - k),
+                                (-abs(hi[0]) - rng.randrange(1, 10 ** 12), max(hi[1], 0) + rng.choice([0, 0, 3, 100, 280]))])
             else:
                 m, e = fmt_real(rng)
                 d = (m if rng.random() < 0.8 else -m, e)
-            if len(str(abs(d[0])).rstrip("0") or "0") > 6:
+            if len(str(abs(d[0])).rstrip("0") or "0") > 15:
                 continue
             ok = True
             if lo is not None:
@@ -283,11 +290,12 @@ class Gen:
         rng = self.rng
         lo, hi = o.get("lo"), o.get("hi")
         c = []
+        k = rng.randrange(1, 13)                  # just outside a bound, up to 15 significant digits
         if lo is not None:
-            c += [(lo[0] * 10 - 1, lo[1] - 1), (lo[0] - rng.randrange(1, 50), lo[1])] + ([lo] if not o["geq"] else [])
+            c += [(lo[0] * 10 - 1, lo[1] - 1), (lo[0] - rng.randrange(1, 50), lo[1]), (lo[0] * 10 ** k - 1, lo[1] - k)] + ([lo] if not o["geq"] else [])
         if hi is not None:
-            c += [(hi[0] * 10 + 1, hi[1] - 1), (hi[0] + rng.randrange(1, 50), hi[1])] + ([hi] if not o["leq"] else [])
-        c = [d for d in c if len(str(abs(d[0])).rstrip("0") or "0") <= 6]
+            c += [(hi[0] * 10 + 1, hi[1] - 1), (hi[0] + rng.randrange(1, 50), hi[1]), (hi[0] * 10 ** k + 1, hi[1] - k)] + ([hi] if not o["leq"] else [])
+        c = [d for d in c if len(str(abs(d[0])).rstrip("0") or "0") <= 15]
         if not c:
             return None
         d = rng.choice(c)
@@ -757,6 +765,75 @@ class Gen:
         self.stats["multicfg_cases"] = self.stats.get("multicfg_cases", 0) + 1
         return {"name": "mcfg%d" % cid, "ops": ops, "sticky": sticky}
 
+    # ---------------------------------------------------------------- strtod
+    def dec_string(self, n, k):
+        """the decimal string of the integer n scaled by 10^-k, in a random spelling"""
+        rng = self.rng
+        digs = str(n)
+        r = rng.random()
+        if k == 0 and r < 0.5:
+            t = digs
+        elif r < 0.6:
+            d2 = digs.rjust(k + 1, "0")
+            t = d2[:len(d2) - k] + "." + d2[len(d2) - k:] if k else digs + rng.choice(["", ".", ".0"])
+        else:
+            sh = rng.randrange(0, len(digs) + 1)                       # digs[:sh] . digs[sh:]  e  (len-sh-k)
+            t = (digs[:sh] or rng.choice(["", "0"])) + "." + digs[sh:] if sh < len(digs) or rng.random() < 0.5 else digs
+            e = (len(digs) - sh) - k if "." in t else -k
+            if t.startswith("."):
+                t = rng.choice(["", "0"]) + t
+            if t.endswith(".") and len(t) == 1:
+                t = "0."
+            t += "%s%s%d" % (rng.choice("eE"), "+" if e >= 0 and rng.random() < 0.3 else "", e)
+        return rng.choice(["", "", "", "-", "+"]) + rng.choice(["", "", "0", "00"]) + t if not t.startswith(".") else t
+
+    def atof_string(self):
+        rng = self.rng
+        r = rng.random()
+        if r < 0.25:       # plain random decimal, 1-40 digits, any exponent
+            nd = rng.choice([1, 2, 3, 6, 15, 16, 17, 18, 19, 20, 21, 25, 40])
+            n = rng.randrange(10 ** (nd - 1), 10 ** nd) if nd > 1 else rng.randrange(0, 10)
+            return self.dec_string(n, rng.choice([0, 0, 1, 2, 5, nd, nd + 3, rng.randrange(0, 340), -rng.randrange(0, 300) if False else rng.randrange(0, 30)])) \
+                if rng.random() < 0.7 else "%d%s%d" % (n, rng.choice("eE"), rng.randrange(-345, 310))
+        if r < 0.55:       # an exact tie between two adjacent doubles (or next to one): (2q+1) * 2^(e-1)
+            q = rng.randrange(2 ** 52, 2 ** 53) if rng.random() < 0.8 else rng.choice([2 ** 52, 2 ** 53 - 1, 2 ** 52 + 1])
+            odd = 2 * q + 1
+            if rng.random() < 0.5:
+                n, k = odd * 2 ** rng.randrange(0, 60), 0
+            else:
+                k = rng.randrange(1, 40)
+                n = odd * 5 ** k                                       # odd * 2^-k exactly
+            d = rng.random()
+            if d < 0.4:
+                pass                                                   # the tie itself: to even
+            elif d < 0.6:
+                n, k = n * 10 ** 6 + rng.choice([1, 999999]), k + 6     # just above (sticky digits far right)
+            elif d < 0.8:
+                n, k = n * 10 ** 6 - rng.choice([1, 999999]), k + 6     # just below
+            else:
+                n, k = n * 10 ** 30 + 1, k + 30
+            return self.dec_string(n, k)
+        if r < 0.7:        # subnormals and the underflow boundary
+            q = rng.choice([1, 2, 3, rng.randrange(1, 2 ** 52), 2 ** 52 - 1, 2 ** 52])
+            kind = rng.random()
+            if kind < 0.5:
+                n = (2 * q + rng.choice([0, 1, 1])) * 5 ** 1075           # q or q+1/2 units of 2^-1074, exactly
+                n = n + rng.choice([0, 0, 1, -1]) if n > 1 else n
+                return self.dec_string(n, 1075) if rng.random() < 0.5 else "%de-1075" % n
+            return "%d.%de-%d" % (rng.randrange(1, 10), rng.randrange(0, 10 ** 16), rng.choice([307, 308, 309, 310, 315, 320, 323, 324, 325, 330, 400]))
+        if r < 0.8:        # overflow boundary: 2^1024 - 2^970 is the tie between DBL_MAX and "2^1024"
+            n = 2 ** 1024 - 2 ** 970 + rng.choice([0, 0, 1, -1, 10 ** 280, -10 ** 280, 2 ** 970, -2 ** 971])
+            return str(n) if rng.random() < 0.6 else self.dec_string(n, 0)
+        if r < 0.9:        # 15-17 digit values (what %.17g prints)
+            return repr(rng.uniform(-1, 1) * 10 ** rng.randrange(-30, 30))
+        return rng.choice(["abc", "", ".", "e5", "1e", "1e+", "1e-", ".5", "5.", "+.5e-3", "-.e1", "1.5x", "1e5x", " 2.5", "\t-1e2 ", "2.5 ", "1 2", "+", "-", "--1",
+                           "1..2", "1.2.3", "1e2e3", "1e2.5", "00", "-0", "0e0", "0.000", "1e400", "-1e400", "1e-400", "123456789012345678901234567890"])
+
+    def atof_case(self, cid):
+        ops = ["atof s=" + hx(self.atof_string()) for _ in range(30)]
+        self.stats["atof_ops"] = self.stats.get("atof_ops", 0) + len(ops)
+        return {"name": "atof%d" % cid, "ops": ops, "sticky": 0}
+
     # ---------------------------------------------------------------- ill-formed tables
     DEFECTS = ["dupname", "unknown_tog", "unknown_req", "unknown_inc", "bad_default", "string_range", "unknown_type", "bad_range",
                "no_dash", "tog_int", "empty_elem", "abbrev_elem"]
@@ -845,6 +922,8 @@ class Gen:
             return self.prefix_pair_case(cid)
         if cid % 25 in (3, 17):
             return self.illformed_case(cid)
+        if cid % 25 == 9:
+            return self.atof_case(cid)
         if cid % 25 in (13, 21):
             return self.multicfg_case(cid)
         rng = self.rng
@@ -958,6 +1037,8 @@ class C14(Prop):
         "unknown_name_in_required_list", "set_option_crash_site_unreachable",
         "displayHelp_fails_iff", "displayHelp_output_documented", "spoofed_cmdline_lists_set_and_on_options", "spoofCmdline_never_crashes",
         "accepted_integer_satisfies_range_as_getter_returns_it",
+        "strtod_rounds_to_nearest", "strtod_exact_on_representable", "strtod_rounding_monotone_in_binade", "strtod_monotone",
+        "real_range_test_monotone", "inclusive_real_bound_accepts_every_true_member",
         "isUsed_iff", "isDefault_of_default_setter", "not_default_has_setter", "demo_wf")]
     claimed = True
     diverge_is_violation = True    # every op is a deterministic documented function of (table, sources so far)
@@ -968,16 +1049,18 @@ class C14(Prop):
                   "a second setting by the same source is a usage error; a successful set_option switches off exactly the other listed toggle members that were on and records the setter; "
                   "an abbreviation resolves iff it is a full name or the prefix of exactly one name (ambiguous iff two, unknown iff none); '--' and the first non-option word end the options and GetArg returns the rest in order; "
                   "every Process* call ends as success-without-message or eslESYNTAX-with-message (never a crash or internal exception), rejected settings change nothing; VerifyConfig succeeds iff all requirements and incompatibilities hold; "
-                  "IsUsed = not IsDefault and IsOn. The hand model is tied to the working tree by an exact differential run (12000 random tables x sources per quick run); a divergence or monitor failure is a concrete failing input.")
+                  "IsUsed = not IsDefault and IsOn. Round 6: the byte-level allocation layer of set_option (do_alloc, valloc[], block reuse across config files) is modelled and proved to erase to the abstract model for every history (no block overrun or read without terminator; valloc = max(old, strlen+1) after a config-file setting, 0 after any other); "
+                  "Create on ANY table returns NULL iff a name lacks '-' or a default fails its own check, ill-formed lists are reported as eslEINVAL at first use, never a crash; esl_opt_DisplayHelp's output is the documented function of the table (one aligned line per option of the docgroup, defaults/ranges for all lines or none, eslEINVAL iff even the bare layout does not fit; every line <= textwidth+2); "
+                  "esl_opt_SpoofCmdline lists exactly the options that were set and are on; an accepted integer satisfies its range as esl_opt_GetInteger returns it (also beyond the int range); the strtod model (decimal -> nearest binary64, ties to even, subnormals, overflow) is exact on representable values, a nearest value otherwise, and monotone, so the real range test never reorders. The hand model is tied to the working tree by an exact differential run (12000 cases per quick run: random well-formed tables x sources, 8% ill-formed tables, multi-config-file histories with values of decreasing/equal/increasing length, help/spoof calls, 14000 strtod strings compared bit for bit with glibc); a divergence or monitor failure is a concrete failing input.")
     level_note = ("Trusted: Lean kernel + propext/Classical.choice/Quot.sound; fidelity of the hand model (incl. its strtol/strtod/strtok/fgets models) is checked, not proved, by the differential run; "
-                  "'+/- prefixed booleans' clause is vacuous in this version (a '+' word is an argument: theorem plus_word_is_argument); history theorems for well-formed tables (ill-formed tables: Create / first-use theorems without hypothesis, IllFormed.lean); reals restricted to <= 6 significant digits; "
-                  "integer, character and real range strings of the documented forms are proved to mean the intended bounds (reals: order of the denoted rationals; lower bounds written as plain decimal literals are proved to be read exactly; exponent spellings only by examples and the differential run).")
-    trusted_base = ["hand model of esl_getopts.c (+ esl_str_IsInteger/IsReal, esl_strtok from easel.c) tied by exact differential run (h_getopts.c, ASan+UBSan build of the working tree)",
+                  "'+/- prefixed booleans' clause is vacuous in this version (a '+' word is an argument: theorem plus_word_is_argument); history theorems for well-formed tables (ill-formed tables: Create / first-use theorems without hypothesis, IllFormed.lean); reals restricted to <= 15 significant digits (DBL_DIG) and the normal exponent range, where decimal order = double order; "
+                  "integer, character and real range strings of the documented forms are proved to mean the intended bounds (reals: order of the denoted rationals; lower bounds written as plain decimal literals are proved to be read exactly; exponent spellings only by examples and the differential run). Round 6: the real range theorems still speak about exact decimals (agreeing with the doubles for <= 15 significant digits: not proved); the rounding model of Round.lean is proved exact/nearest/monotone and compared bit for bit with glibc's atof, but verify_real_range's theorems are not yet restated over it.")
+    trusted_base = ["hand model of esl_getopts.c (+ esl_str_IsInteger/IsReal, esl_strtok from easel.c; byte-level allocation layer; strtod rounding) tied by exact differential run (h_getopts.c, ASan+UBSan build of the working tree)",
                     "Lean compiler/runtime for the executable driver", "gcc, glibc strtol/strtod/getenv/fgets"]
     assumptions = [
         "the statement's clause '+/- prefixed booleans set and unset' has no anchor in this version of esl_getopts.c or its documentation: a word starting with '+' is an ordinary command-line argument in code and model (generated and compared), so the clause is vacuous here",
         "the history theorems (a)-(f) assume well-formed option tables — checked on every generated well-formed table by the model driver (`wfStrictB`, proved to imply the theorems' hypothesis `WF`) (names '-c' or '--word', distinct; optlist elements resolve to the option of that exact name under process_optlist's first-prefix match; toggle lists name only boolean/string options; defaults satisfy their own type/range; string options have no range): ill-formed tables reach ESL_EXCEPTIONs by design",
-        "real values: decimal spellings with <= 6 significant digits and |exponent| <= 12, compared as exact rationals in the model (atof comparisons agree there); hex/inf/nan spellings are not modelled and not generated",
+        "real values: decimal spellings with <= 15 significant digits (DBL_DIG: distinct such decimals are distinct doubles in the same order) and decimal exponents within +-300, compared as exact rationals in the model (atof comparisons agree there; not proved in Lean); values just inside / outside each bound at up to 15 digits are generated; hex/inf/nan spellings and decimals that round (16+ digits) are not modelled and not generated",
         "bytes are ASCII (isspace/char comparison on bytes >= 0x80 not modelled)",
         "in a config file an argument after a boolean option is ignored by the code (documented format: 'an option and an argument (if the option takes an argument)'); modelled as is",
         "a second esl_opt_ProcessSpoof on one object is generated since fix df08745 (eslEINVAL + message, object unchanged); before that fix its error path freed the first spoof's buffers",
@@ -1234,6 +1317,11 @@ class C14(Prop):
                 pass
         cmd_failed = False
         texts = []        # everything the sources processed since Create/Reuse said, decoded (for the provenance check of stored values)
+        if case.get("name", "").startswith("atof"):
+            for op, l in zip(case["ops"], out):
+                if not re.match(r"isreal=[01] bits=[0-9a-f]{16}$", l):
+                    return Failure("monitor", "atof op answered %r" % l[:80])
+            return None
         ill = case.get("name", "").startswith("ill")      # deliberately ill-formed table: eslEINVAL answers are the documented ones
         for op, l in zip(case["ops"], out):
             w = op.split()[0]
